@@ -358,3 +358,82 @@ T_UNSET = Contract(
     ],
     frame=[], props=["C13"],
     assumes=["TransferOps.delete is a seam; only the last deleted path is recorded, the invariant carries the prefix fact"])
+
+
+# ---------------------------------------------------------------- the statements around the source loops (local cache and `own` scope)
+def before_loop(fn):
+    out = []
+    for n in fn.body:
+        if isinstance(n, ast.For):
+            break
+        if not (isinstance(n, ast.Expr) and isinstance(n.value, ast.Constant)):
+            out.append(n)
+    return out
+
+
+def after_loop(fn):
+    out, seen = [], False
+    for n in fn.body:
+        if seen:
+            out.append(n)
+        if isinstance(n, ast.For):
+            seen = True
+    return out
+
+
+LOCAL_OV = dict(OVERRIDES, **{f"{CLS}._get": seam_handler("local_get", None), f"{CLS}._unset": seam_handler("local_unset", None),
+                              f"{CLS}.get_sources": seam_handler("get_sources", Seq(STR))})
+BASE = {"cls": VClass(CLS), "params": Ref("Params"), "object": NONE}
+
+SHOW_PROLOGUE = Contract(
+    target=f"{POOL}::{CLS}.show", name=f"{CLS}.show#prologue", block=("prologue", before_loop), params=BASE,
+    overrides=LOCAL_OV, raises={"ParamNotFound": None},
+    outputs={"cache_states": Seq(STR), "scopes": Seq(STR)},
+    ensures=[("local_cache_listed_only_with_own_scope", "ite('own' in scopes, ghost('local_show.calls') == old(ghost('local_show.calls')) + 1 and "
+                                                        "cache_states == ghost('local_show.result', SeqOf(STR)), "
+                                                        "ghost('local_show.calls') == old(ghost('local_show.calls')) and len(cache_states) == 0)"),
+             ("no_transfer", none_of(TRANSPORT_OPS))],
+    frame=[], props=["C13"], assumes=["extracted block: the statements of show before the loop over the sources"])
+SHOW_EPILOGUE = Contract(
+    target=f"{POOL}::{CLS}.show", name=f"{CLS}.show#epilogue", block=("epilogue", after_loop),
+    params={"cache_states": Seq(STR), "pool_states": SetK(STR)},
+    ensures=[("present_only_if_cached_or_in_permitted_sources", "forall(STR, lambda s: (s in result) == (s in cache_states or s in pool_states))")],
+    result_kind=Seq(STR), frame=[], props=["C13"], assumes=["extracted block: the return statement of show"])
+GET_EPILOGUE = Contract(
+    target=f"{POOL}::{CLS}.get", name=f"{CLS}.get#epilogue", block=("epilogue", after_loop),
+    params=dict(BASE, scopes=Seq(STR)), overrides=LOCAL_OV,
+    ensures=[("local_get_iff_own_scope", "ite('own' in scopes, ghost('local_get.calls') == old(ghost('local_get.calls')) + 1, "
+                                         "ghost('local_get.calls') == old(ghost('local_get.calls')))"),
+             ("no_transfer", none_of(TRANSPORT_OPS))],
+    frame=[], props=["C13"], assumes=["extracted block: the statements of get after the loop over the sources"])
+UNSET_PROLOGUE = Contract(
+    target=f"{POOL}::{CLS}.unset", name=f"{CLS}.unset#prologue", block=("prologue", before_loop), params=BASE,
+    overrides=LOCAL_OV, raises={"ParamNotFound": None},
+    outputs={"scopes": Seq(STR)},
+    ensures=[("local_removal_iff_own_scope", "ite('own' in scopes, ghost('local_unset.calls') == old(ghost('local_unset.calls')) + 1, "
+                                             "ghost('local_unset.calls') == old(ghost('local_unset.calls')))"),
+             ("no_transfer", none_of(TRANSPORT_OPS))],
+    frame=[], props=["C13"], assumes=["extracted block: the statements of unset before the loop over the sources"])
+
+
+# ---------------------------------------------------------------- RootSourcedStateBackend.get_root: refresh the local root only if needed
+GET_ROOT = Contract(
+    target=f"{POOL}::{RCLS}.get_root", params=ROOT_PARAMS, setup=init_cmp,
+    overrides=dict(ROOT_OVERRIDES, **{"TransferOps.compare": compare_seam, "os.path.join": path_join}),
+    loops={0: {"invariants": ["ghost('cmp.all') == True", "cache_valid == True"],
+               "ghost": ["cmp.all", "cmp.calls", "cmp.last", "cmp.cache_path", "cmp.pool_path"],
+               "kinds": {"image_name": STR, "image_params": Ref("Params"), "image_filename": STR, "cache_path": STR, "pool_path": STR,
+                         "cache_valid": BOOL}}},
+    raises={"ParamNotFound": None, "KeyError": None},
+    ensures=[
+        ("without_own_scope_only_the_pool", f"implies('own' not in {SCOPE_P}, {only_root('pool_get_root')})"),
+        ("own_scope_only_is_local", f"implies({SCOPE_P} == 'own', {only_root('local_get_root')} and {same('pool_check_root')})"),
+        ("mixed_scope_ends_with_the_local_root", f"implies('own' in {SCOPE_P} and {SCOPE_P} != 'own', {once('local_get_root')} and "
+                                                 f"{same('local_set_root')} and {same('pool_set_root')} and {same('local_unset_root')} and {same('pool_unset_root')})"),
+        ("download_only_if_pool_has_it_and_cache_is_stale", f"implies('own' in {SCOPE_P} and {SCOPE_P} != 'own', "
+                                                            f"ite(ghost('pool_check_root.result') and not (ghost('local_check_root.result') and ghost('cmp.all')), "
+                                                            f"{once('pool_get_root')}, {same('pool_get_root')}))"),
+    ],
+    frame=[], props=["C13"],
+    assumes=["root checks, root transfers and the per-image comparison are seams"],
+)
